@@ -133,6 +133,12 @@ func main() {
 				hx.Emit(observe(hxpat.Pattern(l, i)))
 			}
 		}
+		// every ASCII rune (and a few multi-byte) alone, doubled and embedded between letters
+		for _, c := range hxpat.SweepRunes() {
+			for _, s := range []string{string(c), string(c) + string(c), "a" + string(c) + "b", string(c) + "a", "\\" + string(c)} {
+				hx.Emit(observe(s))
+			}
+		}
 		r := hx.Rand(18, 18)
 		for i := 0; i < o.N; i++ {
 			p := hxpat.GenTokens(r, 5)
